@@ -323,8 +323,13 @@ impl SaleWorld {
             .iter()
             .enumerate()
             .map(|(i, (s, e))| {
-                json!({"name": format!("stage{}", i), "start_time": ts(now + s * S), "end_time": ts(now + e * S),
-                       "mint_price": coinv(price, denom), "per_address_limit": limit, "mint_count_limit": stage_limit})
+                let mut st = json!({"name": format!("stage{}", i), "start_time": ts(now + s * S), "end_time": ts(now + e * S),
+                       "mint_price": coinv(price, denom), "mint_count_limit": stage_limit});
+                // tiered-whitelist-flex stages have no per_address_limit (the member's own count is the limit)
+                if kind != WlKind::TieredFlex {
+                    st["per_address_limit"] = json!(limit);
+                }
+                st
             })
             .collect();
         let (code, msg) = match kind {
